@@ -320,6 +320,8 @@ class Facts:
         if not _KNOWN:
             return False
         base = npath.split("::{closure")[0]
+        if base in getattr(self, "role_paths", {}).values():
+            return False        # a pinned private item recognised by its role (roles.py), wherever it lives now
         d = self.fns.get(base)
         if not (d is not None and d.get("vis") != "pub" and base not in _KNOWN):
             return False
@@ -410,14 +412,22 @@ def load(features=("async", "http"), release=False, repo=None):
         # private items are looked up by effect, not by name (roles.py): a renamed helper is mapped back to the
         # name the rules use; on the pinned tree nothing is renamed
         import roles
+        found = {}
         try:
-            ren = roles.discover(f)
+            ren = roles.discover(f, found)
         except Exception as e:      # discovery must never take a check down; without it the rules fail closed as before
             ren = {}
             f.role_discovery_error = repr(e)
         if ren:
             f = Facts(roles.apply(doc, ren))
         f.renames = ren
+        # where a private item found by its role lives (canonical path -> path after the renames): a helper may have moved
+        # to another parent (associated function -> free function) while keeping its role
+        f.role_paths = {}
+        for canon, cands in found.items():
+            if len(cands) == 1:
+                a = cands[0]
+                f.role_paths[canon] = a.rsplit("::", 1)[0] + "::" + canon.rsplit("::", 1)[-1] if "::" in a else a
         f.params_renamed = roles.canon_params(f)
         _CACHE[key] = f
     return _CACHE[key]
